@@ -76,6 +76,13 @@ func main() {
 			terms = append(terms, runUpgradeCase(ta, *seed, i, rep, *profile))
 			rep.Cases++
 		}
+	case "migrate":
+		require, caseType, fn = "Migrate", "gcase", "gmismatches"
+		ta := NewTestApp(GenOpts{Time: time.Unix(1690000000, 0).UTC()})
+		for i := lo; i < hi; i++ {
+			terms = append(terms, runMigrateCase(ta, *seed, i, rep, *profile))
+			rep.Cases++
+		}
 	case "sweep":
 		ta := NewTestApp(GenOpts{Time: time.Unix(1690000000, 0).UTC()})
 		if *profile == "values" {
